@@ -15,6 +15,11 @@
 3. a sample of richer packages (replication + aggregation, platforms, environments, a DSL 2 namespace with duplicate step
    names, memoization chain with input/data files) is instantiated in every process: component names, edges, resolved
    configurations, environments, command lines, memoization hashes must be byte-identical (no oracle needed).
+4. environment key-order family: a package whose environments refer to their own keys in chains of depth >= 2, to launch
+   variables, with DEFAULTS lists and platform-over-default layering; for EVERY mapping of the document every key order
+   (all permutations up to 4 keys, identity/reverse/samples beyond) is a separate package, loaded in every process for both
+   platforms; environmentWithName (expanded and raw) and environmentForNode must be byte-identical to those of the document
+   as written (key = the mapping whose order mattered).
 """
 import copy
 import json
@@ -102,7 +107,8 @@ RICH_FLOWIR = {
                               "stages": {1: {"extra": "s1"}}},
                   "fast": {"global": {"greeting": "hi", "n": 2}, "stages": {0: {"alpha": "a0"}}}},
     "platforms": ["default", "fast"],
-    "environments": {"default": {"envA": {"DEFAULTS": "PATH:LD_LIBRARY_PATH", "A": "1", "B": "%(greeting)s", "Z": "26"},
+    "environments": {"default": {"envA": {"DEFAULTS": "PATH:LD_LIBRARY_PATH", "A": "1", "B": "%(greeting)s", "Z": "26",
+                                          "R_BIN": "$R_HOME/bin", "R_HOME": "$R_ROOT/home", "R_ROOT": "/r/$A", "PATH": "$R_BIN:$PATH"},
                                  "envB": {"X": "y", "W": "%(alpha)s"},
                                  "environment": {"GLOBAL_ONE": "1", "GLOBAL_TWO": "2"}},
                      "fast": {"envA": {"A": "2", "C": "3"}}},
@@ -145,6 +151,90 @@ RICH_DSL = {
     ]}
 
 
+# Environments whose variables refer to each other (chains of depth >= 2), to launch variables of the process ($VERIF_LAUNCH,
+# $PATH), with DEFAULTS lists, and layered platform-over-default.  None of APP_*, L?, G? is set in the workers' shell.
+ENV_PACKAGE = {
+    "platforms": ["default", "hpc"],
+    "variables": {"default": {"global": {"root": "/opt/demo", "tool": "tool"}}, "hpc": {"global": {"root": "/opt/hpc"}}},
+    "environments": {
+        "default": {
+            "chain": {"APP_BIN": "$APP_HOME/bin", "APP_HOME": "${APP_ROOT}/app", "APP_ROOT": "%(root)s", "TOOL": "$VERIF_LAUNCH/%(tool)s:$APP_BIN"},
+            "layered": {"DEFAULTS": "PATH:VERIF_LAUNCH", "LA": "$LB/a", "LB": "$LC/b", "LC": "/c", "PATH": "$LA:$PATH", "LAUNCHED": "$VERIF_LAUNCH/l"},
+            "environment": {"GA": "$GB/ga", "GB": "$GC/gb", "GC": "/gc"}},
+        "hpc": {"layered": {"LB": "$LD/hpcb", "LD": "/d"}, "chain": {"APP_ROOT": "/hpc/root", "EXTRA": "$APP_BIN/x"}}},
+    "components": [
+        {"name": "c0", "stage": 0, "command": {"executable": "echo", "arguments": "x", "environment": "chain"}},
+        {"name": "c1", "stage": 0, "command": {"executable": "echo", "arguments": "x", "environment": "layered"}},
+        {"name": "c2", "stage": 1, "command": {"executable": "echo", "arguments": "x"}},
+        {"name": "c3", "stage": 1, "command": {"executable": "echo", "arguments": "x", "environment": "none"}}]}
+ENV_NAMES = ["chain", "layered", "environment", "none", None]
+ENV_UNSET = ["APP_BIN", "APP_HOME", "APP_ROOT", "TOOL", "EXTRA", "LA", "LB", "LC", "LD", "LAUNCHED", "GA", "GB", "GC"]
+ALL_PERMS_UPTO = 4        # mappings with at most this many keys are presented in ALL their key orders
+SAMPLED_PERMS = 8         # larger mappings: identity, reverse and seeded samples
+
+
+def mapping_paths(doc, path=()):
+    """paths of all mappings of the document with at least two keys"""
+    out = []
+    if isinstance(doc, dict):
+        if len(doc) >= 2:
+            out.append(path)
+        for k in doc:
+            out += mapping_paths(doc[k], path + (k,))
+    elif isinstance(doc, list):
+        for i, x in enumerate(doc):
+            out += mapping_paths(x, path + (i,))
+    return out
+
+
+def env_family():
+    """[(id, mapping path, key order)]: every mapping of ENV_PACKAGE x its key orders (all of them for small mappings)"""
+    import itertools
+    fam = []
+    rng = random.Random(verif_seed() * 104729 + 7)
+    for path in mapping_paths(ENV_PACKAGE):
+        m = ENV_PACKAGE
+        for k in path:
+            m = m[k]
+        keys = list(m)
+        if len(keys) <= ALL_PERMS_UPTO:
+            orders = list(itertools.permutations(keys))
+        else:
+            orders = [tuple(keys), tuple(reversed(keys))]
+            while len(orders) < SAMPLED_PERMS:
+                o = keys[:]
+                rng.shuffle(o)
+                if tuple(o) not in orders:
+                    orders.append(tuple(o))
+        name = ".".join(str(k) for k in path) or "document"
+        for n, o in enumerate(orders):
+            fam.append(("env:%s:%d" % (name, n), path, list(o)))
+    return fam
+
+
+def with_key_order(doc, path, order, rng):
+    """ENV_PACKAGE with the mapping at `path` in the given key order and every other mapping shuffled by rng (None: as written)"""
+    def rec(obj, here):
+        if isinstance(obj, dict):
+            if here == tuple(path):
+                keys = list(order)
+            else:
+                keys = list(obj)
+                if rng is not None:
+                    rng.shuffle(keys)
+            return {k: rec(obj[k], here + (k,)) for k in keys}
+        if isinstance(obj, list):
+            return [rec(x, here + (i,)) for i, x in enumerate(obj)]
+        return obj
+    return rec(copy.deepcopy(doc), ())
+
+
+def env_cases(vdir):
+    return [{"id": eid, "kind": "envfamily", "package": os.path.join(vdir, "envfam", "p%d.package" % n), "platforms": [None, "hpc"],
+             "names": ENV_NAMES, "nodes": ["stage0.c0", "stage0.c1", "stage1.c2", "stage1.c3"]}
+            for n, (eid, path, order) in enumerate(env_family())]
+
+
 def write_variant(vdir, k, t):
     """everything the processes of variant k read; the same documents for every k, keys ordered differently"""
     rng = random.Random(verif_seed() * 1000 + k)
@@ -173,6 +263,11 @@ def write_variant(vdir, k, t):
     dump(os.path.join(vdir, "rich_vars_2.yaml"), sh({"global": {"greeting": "hola"}, "stages": {0: {"zeta": "user-z0"}}}))
     dsl = os.path.join(vdir, "dsl.package")
     dump(os.path.join(dsl, "conf", "dsl.yaml"), sh(RICH_DSL))
+    for n, (eid, path, order) in enumerate(env_family()):
+        dump(os.path.join(vdir, "envfam", "p%d.package" % n, "conf", "flowir_package.yaml"),
+             # only the named mapping changes its key order (so that a difference is attributed to it); documents with ALL
+             # mappings shuffled per process are the rich packages above
+             with_key_order(ENV_PACKAGE, path, order, None))
 
 
 def var_path(vdir, f, shape):
@@ -226,7 +321,7 @@ def run_processes(chk, t, cases, seeds, with_rich=True):
                              # files depends on the hash of these very strings, they must not contain the pid of this run
                              "variable_files": [os.path.relpath(var_path(vdir, f, c["shape"][f - 1]), vdir) for f in c["order"]],
                              "instantiate": c.get("instantiate", False)})
-            extra = rich_cases(vdir) if (with_rich and j == 0) else []
+            extra = (rich_cases(vdir) + env_cases(vdir)) if (with_rich and j == 0) else []
             part = mine + extra
             job = {"scratch": os.path.join(chk.scratch, "w%d_%d" % (k, j)), "cwd": vdir, "listing_seed": verif_seed() * 7919 + 31 * k + j + 1, "cases": part}
             jp = os.path.join(chk.scratch, "job_%d_%d.json" % (k, j))
@@ -238,6 +333,9 @@ def run_processes(chk, t, cases, seeds, with_rich=True):
         env = dict(os.environ)
         env["PYTHONHASHSEED"] = str(s)
         env["VERIF_NO_REEXEC"] = "1"
+        env["VERIF_LAUNCH"] = "/launch/dir"          # a launch variable the environments refer to
+        for name in ENV_UNSET:
+            env.pop(name, None)
         procs.append((s, jp, op, subprocess.Popen([sys.executable, "-W", "ignore", WORKER, jp, op], env=env, cwd=VERIF,
                                                   stdout=subprocess.PIPE, stderr=subprocess.STDOUT, text=True)))
     result = {}
@@ -370,6 +468,46 @@ def judge_rich(chk, seeds, result, ids):
         chk.sample({"rich": rid, "nodes": ref["nodes"], "memoization": {n: c["memoization"] for n, c in ref["components"].items()}}, limit=5)
 
 
+def judge_env(chk, seeds, result):
+    """every key order of every mapping, in every process: one and the same resolved environments"""
+    fam = env_family()
+    ref_id = fam[0][0]
+    ref = result[seeds[0]].get(ref_id)
+    if ref is None or "exception" in ref:
+        raise MachineryError("environment family: reference case %s failed: %s" % (ref_id, ref))
+    chain = ref["default"]["named"]["chain"]
+    if not (isinstance(chain, dict) and "APP_BIN" in chain and "/launch/dir" in str(chain.get("TOOL"))):
+        raise MachineryError("environment family lost its substance: %s" % chain)
+    ref_text = json.dumps(ref, sort_keys=True)
+    for (eid, path, order) in fam:
+        name = ".".join(str(k) for k in path) or "document"
+        chk.evaluated(("env", eid))
+        for s in seeds:
+            got = result[s].get(eid)
+            if got is None:
+                raise MachineryError("environment case %s missing from the output of PYTHONHASHSEED=%s" % (eid, s))
+            if json.dumps(got, sort_keys=True) != ref_text:
+                where = diff_paths(ref, got)[:5]
+                chk.violation("order-dependent:mapping=%s" % name,
+                              "keys of %s listed as %s (PYTHONHASHSEED=%s): resolved environments differ from those of the document as written at %s; e.g. %s" % (
+                                  name, order, s, where, describe_diff(ref, got, where[:1])), {"envfamily": name, "seeds": seeds})
+                break
+    chk.sample({"environment family": len(fam), "chain (default platform)": chain}, limit=6)
+
+
+def describe_diff(a, b, paths):
+    out = []
+    for p in paths:
+        x, y = a, b
+        try:
+            for k in [q for q in p.strip("/").split("/") if q]:
+                x, y = x[k], y[k]
+            out.append("%s: %r vs %r" % (p, x, y))
+        except Exception:
+            out.append(p)
+    return "; ".join(out)
+
+
 def run(tier):
     chk = Check(PID, tier)
     gen = os.path.join(SPEC, "gen")
@@ -409,6 +547,8 @@ def run(tier):
     index = {(tuple(c["shape"]), tuple(c["order"])): c["expected"] for c in cases}
     judge(chk, cases, seeds, result, index)
     judge_rich(chk, seeds, result, [c["id"] for c in rich_cases("x")])
+    judge_env(chk, seeds, result)
+    chk.cov["env_family"] = len(env_family())
     chk.cov["rule"] = ("user-variable family: every assignment of %d shapes to the files of the list x every list of length <= %d over the files (repetitions "
                        "included), each loaded through 2-3 entry points in %d processes (PYTHONHASHSEED %s), variants of the documents with shuffled "
                        "mapping keys, shuffled directory listings; rich packages: %d, all processes" % (
@@ -439,5 +579,8 @@ def replay(path):
         judge(chk, [c], rp["seeds"], result, index)
     else:
         result = run_processes(chk, t, [], rp["seeds"], with_rich=True)
-        judge_rich(chk, rp["seeds"], result, [rp["rich"]])
+        if "envfamily" in rp:
+            judge_env(chk, rp["seeds"], result)
+        else:
+            judge_rich(chk, rp["seeds"], result, [rp["rich"]])
     return chk.finish()
